@@ -133,7 +133,7 @@ def source_hashes():
 
 
 def write_replay(prop, modname, part, rec):
-    d = os.path.join(VERIF, "replays", prop)
+    d = os.path.join(os.environ.get("VERIF_REPLAY_DIR") or os.path.join(VERIF, "replays"), prop)
     os.makedirs(d, exist_ok=True)
     body = {"property": prop, "module": modname, "fn": part["fn"], "part": part,
             "inputs": rec["inputs"], "key": rec["key"], "msg": rec["msg"]}
@@ -147,7 +147,8 @@ def write_replay(prop, modname, part, rec):
 def standalone_replay(path):
     """Replay in a fresh interpreter without CrossHair. Returns (reproduced: bool, output)."""
     py = os.path.join(VERIF, ".venv", "bin", "python")
-    env = dict(os.environ, SX_NO_CROSSHAIR="1", PYTHONPATH=VERIF)
+    env = dict(os.environ, SX_NO_CROSSHAIR="1")
+    env["PYTHONPATH"] = (REPO + "/src:" + VERIF) if REPO != "/repo" else VERIF
     try:
         p = subprocess.run([py, "-m", "sx.replay", path], capture_output=True, text=True, env=env,
                            timeout=120, cwd=VERIF)
@@ -284,8 +285,9 @@ def main(prop, tier="quick", seed=0, only=None):
         "wall_s": round(time.time() - t0, 2),
         "violations": n_viol,
     }
-    os.makedirs(os.path.join(VERIF, "evidence"), exist_ok=True)
-    with open(os.path.join(VERIF, "evidence", "%s.json" % prop), "w") as f:
+    evdir = os.environ.get("VERIF_EVIDENCE_DIR") or os.path.join(VERIF, "evidence")
+    os.makedirs(evdir, exist_ok=True)
+    with open(os.path.join(evdir, "%s.json" % prop), "w") as f:
         json.dump(ev, f, indent=1, sort_keys=True)
     for l in out_lines:
         print(l)
